@@ -255,6 +255,12 @@ func (c *client) String() string {
 func (c *client) inFlightUp() error {
 	c.inFlightM.Lock()
 	c.inFlight++
+	if int32(c.inFlight) <= 0 {
+		// the response has already been received and counted down by
+		// the time the send was counted up, nothing to wait for
+		c.inFlightM.Unlock()
+		return nil
+	}
 	// we expect that at least the last request can be completed within readTimeout
 	if err := c.conn.SetReadDeadline(time.Now().Add(c.readTimeout)); err != nil {
 		c.inFlightM.Unlock()
